@@ -129,6 +129,10 @@ X_PointsSp(e) ==
        /\ \A i \in 1..Len(e.r) : PtMatch(e.a.pts[i], SpToExt(e.r[i]), e.a.z, e.a.z, e.w.abs)
   ELSE Err(e) /\ e.r = <<>>
 
+\* arbitrary float64 points: the returned voxel contains the point according to the vertex query
+X_PointInVoxel(e) == /\ Ok(e) /\ e.r.n = 1
+                     /\ e.r.west /\ e.r.east /\ e.r.south /\ e.r.north /\ e.r.bottom /\ e.r.top
+
 \* ---- C02 ------------------------------------------------------------------
 X_Vertex(e) == Ok(e) /\ e.r = Vertices(e.a.id)
 \* centre: exact midpoint in longitude and altitude; latitude within the 1e-10
@@ -340,7 +344,7 @@ X_Conc(e) == Ok(e) /\ e.r[1] = e.r[2]
 \* recorded as strings; e.a.law names the law (see harness/fam_laws.go):
 \*   ZoomOutCompose, LookupThenZoomOut, HorizontalMinMaxCompose, InOutMergeIdentity (C03 / C09),
 \*   ShiftComposeLarge (C07), AltitudeKeySubVoxelEnds, KeyToZSubKeyEnds, AltitudeKeyTranslate,
-\*   KeyToZTranslate (C12: translation invariance ties indices / offsets beyond 2^28 to the small
+\*   KeyToZTranslate, TileIsKeyRange (C13) (C12: translation invariance ties indices / offsets beyond 2^28 to the small
 \*   ones whose band X_ZToKey / X_KeyToZ evaluate exactly)
 X_Law(e) == Ok(e) /\ e.r[1] = e.r[2] /\ e.r[1] # <<>>
 
@@ -369,6 +373,7 @@ Explains(e) ==
       [] e.op \in {"OverlapSp", "OverlapSpArr"}   -> X_OverlapSp(e)
       [] e.op = "PointsExt"            -> X_PointsExt(e)
       [] e.op = "PointsSp"             -> X_PointsSp(e)
+      [] e.op = "PointInVoxel"         -> X_PointInVoxel(e)
       [] e.op \in {"VertexExt", "VertexSp"} -> X_Vertex(e)
       [] e.op \in {"CentreExt", "CentreSp"} -> X_Centre(e)
       [] e.op = "Face"                 -> X_Face(e)
@@ -428,6 +433,7 @@ Expected(e) ==
     [] e.op \in {"OverlapSp", "OverlapSpArr"}   -> Exp_OverlapSp(e)
     [] e.op = "PointsExt"            -> Exp_PointsExt(e)
     [] e.op = "PointsSp"             -> Exp_PointsSp(e)
+    [] e.op = "PointInVoxel"         -> "west <= lon < east, south < lat <= north, bottom <= alt < top"
     [] e.op \in {"VertexExt", "VertexSp"} -> Vertices(e.a.id)
     [] e.op \in {"CentreExt", "CentreSp"} -> [cu |-> CentreU(e.a.id), ca |-> CentreA(e.a.id), back |-> <<e.a.id>>]
     [] e.op = "Face"                 -> "shared corners must be bit-identical"
